@@ -4,8 +4,8 @@ from checks.common import swarm
 
 ID = 'C02'
 LEVEL = 'exploration'
-NEEDS = ('threads', 'aio')
-PROC_READY = False
+NEEDS = ('threads', 'aio', 'proc')
+PROC_READY = True
 QUICK = dict(runs=5000, wall=85)
 THOROUGH = dict(runs=300000, wall=1500)
 RULE = ('scenario = servlet tree from a grammar (Thread/Process leaves with 1-3 workers, batch_size in {0,1,2,4}, Sequential, Ensemble '
@@ -181,7 +181,7 @@ def _looks_like_crosstalk(r):
                 walk(i)
 
     walk(servers.norm_value(v))
-    return bool(roots - {r.x})
+    return bool(roots - {servers.root(r.x)})
 
 
 def run(sim, sc):
